@@ -1288,6 +1288,11 @@ func c14Variants(d *db.DB, c *c14Case, unary bool, sample bool) {
 		}
 		// required of another draw: the text is read back by the parser (above), SQLite prepares it, and unless it stops with
 		// a value-dependent run-time error (abs(~9223372036854775807) overflows in SQLite itself) it has the original's shape
+		if c.eo.Err != "" {
+			// the statement as sent is in error; with a literal in place of the call SQLite may not even reach the faulty
+			// part (`0 AND randomblob()` is folded away before the arity check) — nothing to compare for an injected value
+			continue
+		}
 		ev := c14Run(d, tx, c.fq)
 		if df := c14Compare(c.eo, ev, false); df != "" {
 			c.variantFail, c.variantOut = df, tx
